@@ -63,6 +63,20 @@ def r1_index_discipline(R) -> None:
         fi = R.repo.func(q)
         cfg = CFG(fi.node, fsic_hierarchy(R.repo))
         R.saw_function(fi, cfg)
+        # status and iteration count of a period are recorded together: a store into one series has a twin into the
+        # other, under the same conditions, for the same positions (whether one position or an array of them)
+        all_st = [st for st in series_stores(cfg) if st.owner == 'self' and st.series in ('status', 'iterations')]
+        from fsa.flow import guards as _guards_of
+        guards = lambda st: (tuple(st.node.loops), tuple(sorted((tid, lab) for (tid, lab) in _guards_of(cfg, st.node.id))))
+        for a_ in [st for st in all_st if st.series == 'status']:
+            twins = [b_ for b_ in all_st if b_.series == 'iterations' and guards(b_) == guards(a_)]
+            if len(twins) == 1 and text(twins[0].index) != text(a_.index):
+                R.violation(q, f'status-iterations-positions:{text(a_.index)}|{text(twins[0].index)}',
+                            f'`{a_.node.label()[:60]}` and `{twins[0].node.label()[:60]}` record the outcome of the same step for different positions (`{text(a_.index)}` / '
+                            f'`{text(twins[0].index)}`): periods that were not attempted (or were rejected) get an iteration count or a status they should not have',
+                            where=f'{fi.module.relpath}:{twins[0].node.lineno}')
+            elif len(twins) == 1:
+                R.check(True, q, f'status-iterations-positions:{text(a_.index)}', 'status and iterations are recorded for the same positions', '', where=f'{fi.module.relpath}:{a_.node.lineno}')
         for st in series_stores(cfg):
             if st.series.startswith('<dict:'):
                 continue
